@@ -542,6 +542,8 @@ impl Program {
         mut source_mapping: Option<&mut ProgramCalibrationExpansionSourceMap>,
     ) -> Result<Self> {
         let mut new_program = self.clone_without_body_instructions();
+        // The calibrations are retained, and so are the qubits they use.
+        new_program.rebuild_used_qubits();
 
         for (index, instruction) in self.instructions.iter().enumerate() {
             let index = InstructionIndex(index);
@@ -678,6 +680,8 @@ impl Program {
             instructions: Vec::new(),
             used_qubits: HashSet::new(),
         };
+        // The calibrations are retained, and so are the qubits they use.
+        new_program.rebuild_used_qubits();
         new_program.add_instructions(new_instructions);
         Ok(new_program)
     }
@@ -721,6 +725,8 @@ impl Program {
             instructions: Vec::new(),
             used_qubits: HashSet::new(),
         };
+        // The calibrations are retained, and so are the qubits they use.
+        new_program.rebuild_used_qubits();
         new_program.add_instructions(new_instructions);
         Ok((new_program, source_map))
     }
@@ -871,6 +877,8 @@ impl Program {
         // only instructions. Calibrations have already been expanded, so
         // technically there is no need to keep them around anyway.
         expanded_program.calibrations = Calibrations::default();
+        // The qubits used only by the removed calibrations are no longer used.
+        expanded_program.rebuild_used_qubits();
 
         let mut frames_used: HashSet<&FrameIdentifier> = HashSet::new();
         let mut waveforms_used: HashSet<&String> = HashSet::new();
